@@ -46,20 +46,27 @@ RENAME = [("never_droppable", "never_copyable"), ("must_be_droppable", "must_be_
           ("droppable", "copyable")]
 
 
-def _norm(node: ast.AST) -> str:
+def _swap(v: str) -> str:
+    """copyable <-> droppable (simultaneously), in identifiers and message texts"""
+    pairs = [("copyable", "droppable"), ("Copyable", "Droppable"), ("copied", "dropped"), ("Copy", "Drop"), ("copy", "drop")]
+    for i, (x, y) in enumerate(pairs):
+        v = v.replace(x, f"\0{i}a").replace(y, f"\0{i}b")
+    for i, (x, y) in enumerate(pairs):
+        v = v.replace(f"\0{i}a", y).replace(f"\0{i}b", x)
+    return v
+
+
+def _norm(node: ast.AST, swap: bool = False) -> str:
+    """Dump of a statement; with swap=True the roles copyable/droppable are exchanged first.  Siblings are compared as
+    _norm(copy side, swap=True) == _norm(drop side): a drop-side rule that reads `.copyable` does not match."""
     n = copy.deepcopy(node)
     for x in ast.walk(n):
         for fld in ("id", "attr", "arg", "name"):
             v = getattr(x, fld, None)
-            if isinstance(v, str):
-                for a, b in RENAME:
-                    v = v.replace(a, b)
-                setattr(x, fld, v)
+            if isinstance(v, str) and swap:
+                setattr(x, fld, _swap(v))
         if isinstance(x, ast.Constant) and isinstance(x.value, str):
-            v = x.value
-            for a, b in RENAME:
-                v = v.replace(a, b)
-            x.value = v.replace("dropped", "copied").replace("Drop", "Copy")
+            x.value = _swap(x.value) if swap else x.value
     return ast.dump(n, annotate_fields=False, include_attributes=False)
 
 
@@ -80,7 +87,7 @@ def run(ctx: Ctx) -> None:
                 continue
             n_pairs += 1
             ctx.saw("functions", f.qualname)
-            a = [_norm(s) for s in body_without_docstring(f.node)]
+            a = [_norm(s, swap=True) for s in body_without_docstring(f.node)]
             b = [_norm(s) for s in body_without_docstring(sib.node)]
             da = sorted(d for d in f.decorator_names())
             db = sorted(d for d in sib.decorator_names())
@@ -104,7 +111,7 @@ def run(ctx: Ctx) -> None:
             for s1, s2 in zip(body, body[1:]):
                 if isinstance(s1, ast.If) and isinstance(s2, ast.If) and "must_be_copyable" in ast.unparse(s1.test) and "must_be_droppable" in ast.unparse(s2.test):
                     n_guards += 1
-                    ctx.check(_norm(s1) == _norm(s2), "R-C14.1", f"{f.qualname}#copy-guard~drop-guard[{n_guards}]", f"{f.module.rel}:{s1.lineno}",
+                    ctx.check(_norm(s1, swap=True) == _norm(s2), "R-C14.1", f"{f.qualname}#copy-guard~drop-guard[{n_guards}]", f"{f.module.rel}:{s1.lineno}",
                               {"copy_guard": ast.unparse(s1.test), "drop_guard": ast.unparse(s2.test)},
                               "the droppable bound of a type parameter is checked differently from the copyable bound")
     ctx.floor("R-C14.1", "adjacent copy/drop guards", n_guards, 2)
@@ -119,7 +126,9 @@ def run(ctx: Ctx) -> None:
     def arg_tok(kind: str, which: str) -> Tok:
         if kind == "const":
             return Tok("const_arg", __class__="ConstArg")
-        return Tok("type_arg", __class__="TypeArg", ty=Tok("argty", **{which: kind == "yes"}))
+        other = "droppable" if which == "copyable" else "copyable"
+        # the other flag gets the opposite value: a rule that reads the wrong flag computes the wrong answer
+        return Tok("type_arg", __class__="TypeArg", ty=Tok("argty", **{which: kind == "yes", other: kind != "yes"}))
 
     for which in ("copyable", "droppable"):
         prop = ptb.methods.get(which)
